@@ -36,6 +36,17 @@ pub fn is_miri(args: &vcore::Args) -> bool {
     cfg!(miri) || args.engine.starts_with("miri")
 }
 
+/// Under Miri one process explores one schedule with a tiny workload and the interpreter's own
+/// reports (UB, data race, deadlock, leak) are the oracle; coverage thresholds that a single
+/// tiny schedule cannot reliably meet must not turn such a run INCONCLUSIVE.
+pub fn relax_for_miri(mut m: vcore::Monitor, args: &vcore::Args) -> vcore::Monitor {
+    if is_miri(args) {
+        m.required.clear();
+        m.min_nontrivial = 1;
+    }
+    m
+}
+
 // ---------------------------------------------------------------------------
 // Deterministic CSPRNG
 // ---------------------------------------------------------------------------
@@ -120,6 +131,15 @@ pub trait Backend: Sized + 'static {
     fn is_out_of_space(e: &<Self::Ar as AranyaState>::Error) -> bool;
     /// `Some(n)` if the state has a fixed capacity.
     fn capacity(&self) -> Option<usize>;
+    /// Hook H3: atomic snapshot of the list readers consult -> (side address, generation).
+    fn snapshot(_afc: &Self::Afc, _f: impl FnMut(usize, LocalChannelId, ChannelDirection, LabelId)) -> Option<Result<(usize, u32), String>> {
+        None
+    }
+    /// Hook H3: both lists (side 0 = write side, 1 = read side) -> generations.
+    #[allow(clippy::type_complexity)]
+    fn sides(_w: &Self::Ar, _f: impl FnMut(usize, u32, usize, LocalChannelId, ChannelDirection, LabelId, u64)) -> Option<Result<(u32, u32), String>> {
+        None
+    }
 }
 
 pub fn add_seal<B: Backend>(
@@ -222,6 +242,12 @@ where
     fn capacity(&self) -> Option<usize> {
         Some(self.max_chans)
     }
+    fn snapshot(afc: &Self::Afc, f: impl FnMut(usize, LocalChannelId, ChannelDirection, LabelId)) -> Option<Result<(usize, u32), String>> {
+        Some(afc.verif_snapshot(f).map_err(|e| format!("{e:?}")))
+    }
+    fn sides(w: &Self::Ar, f: impl FnMut(usize, u32, usize, LocalChannelId, ChannelDirection, LabelId, u64)) -> Option<Result<(u32, u32), String>> {
+        Some(w.verif_sides(f).map_err(|e| format!("{e:?}")))
+    }
 }
 
 impl<CS: CipherSuite> Drop for Shm<CS> {
@@ -233,6 +259,35 @@ impl<CS: CipherSuite> Drop for Shm<CS> {
 // ---------------------------------------------------------------------------
 // Message helpers
 // ---------------------------------------------------------------------------
+
+/// Seals `n` messages the way the remote end of the channel would (own in-memory state),
+/// returning (ciphertext, plaintext, seq).
+pub fn peer_msgs<CS: CipherSuite>(p: &Pair<CS>, n: usize, rng: &mut Rng, max_len: usize) -> Vec<(Vec<u8>, Vec<u8>, u64)> {
+    let st = memory::State::<CS>::new();
+    let id = st
+        .add(
+            Directed::SealOnly { seal: SealKey::from_raw(&p.seal, Seq::ZERO).expect("from_raw") },
+            p.label,
+            p.peer,
+        )
+        .expect("peer add");
+    let c = Client::new(st);
+    let mut ctx = c.setup_seal_ctx(id).expect("peer ctx");
+    (0..n)
+        .map(|i| {
+            let len = rng.urange(0, max_len);
+            let pt = rng.bytes(len);
+            let mut ct = vec![0u8; pt.len() + Client::<memory::State<CS>>::OVERHEAD];
+            c.seal(&mut ctx, &mut ct, &pt).expect("peer seal");
+            (ct, pt, i as u64)
+        })
+        .collect()
+}
+
+/// The numeric value of a channel id (only `Display` exposes it).
+pub fn id_u64(id: LocalChannelId) -> u64 {
+    id.to_string().parse().expect("LocalChannelId displays as u64")
+}
 
 /// Size of the trailing data header (the sequence number).
 pub const HDR: usize = 8;
